@@ -623,6 +623,12 @@ func execApiCase(c ApiCase) (res vt.Result) {
 			for k, id := range st.Ids {
 				ids[k] = id.String()
 			}
+			if len(ids) > 0 && i%2 == 0 {
+				ids = append(ids, ids[0]) // a request may name an id twice
+				if len(ids) > 3 {
+					ids = append(ids, ids[2], ids[0])
+				}
+			}
 			r := w.send("DELETE", "/v2/collections/col/points", map[string]any{"ids": ids})
 			if len(st.Ids) == 0 {
 				if r.Status != 400 {
@@ -645,6 +651,15 @@ func execApiCase(c ApiCase) (res vt.Result) {
 			deleted := map[string]bool{}
 			for _, id := range want {
 				deleted[id.String()] = true
+			}
+			requested := map[string]bool{}
+			for _, id := range st.Ids {
+				requested[id.String()] = true
+			}
+			for id := range failed {
+				if !requested[id] {
+					return fail(i, st, "delete lists %s as failed, which the request does not name (answer %.300s)", id, r.Body)
+				}
 			}
 			for _, id := range st.Ids {
 				if deleted[id.String()] == failed[id.String()] {
